@@ -3,7 +3,9 @@
 import json, os, re, shutil, subprocess, sys
 pid = sys.argv[1]
 extra = sys.argv[2:]
-W = "/tmp/mut-%s" % pid
+PREFIX = os.environ.get("SEED_PREFIX", "mut")
+OFFSET = int(os.environ.get("SEED_OFFSET", "0"))
+W = "/tmp/%s-%s" % (PREFIX, pid)
 for n in (1, 2, 3):
     patch = "%s/out/patch%d.diff" % (W, n)
     if not os.path.exists(patch):
@@ -28,7 +30,7 @@ for n in (1, 2, 3):
             print("   ", prop, "|", " || ".join(l[:260] for l in lines))
     finally:
         subprocess.run(["git", "-C", "/repo", "checkout", "--", "."])
-    d = "/verif/seeded/%s-%d" % (pid, n)
+    d = "/verif/seeded/%s-%d" % (pid, n + OFFSET)
     os.makedirs(d, exist_ok=True)
     shutil.copy(patch, d + "/patch.diff")
     shutil.copy("%s/out/demo%d.rs" % (W, n), d + "/demo.rs")
